@@ -61,8 +61,8 @@ func timeLessAtom(name string, isA, isB func(c *pathsim.Ctx, e ast.Expr) bool) g
 
 func init() {
 	prop("C10",
-		"(a) a due timer is deleted from the store before it is handed to the caller, and the firing loop stops exactly when the earliest timer is later than the composite watermark; (b) SetTimer stores a timer iff the watermark is strictly before it; (c) every cache mutation of a key-group queue is paired with the DKV mutation and every accessor loads from the DKV first; (d) a partial load (cache filled up) is not recorded as 'all data in cache'; (e) the sorted cache's size accounting uses the element replaced by a re-registration; (f) timer keys are laid out [2 key group BE][0x01][8 unix-nano BE][subject] consistently in encoder, decoder, comparator and scan prefix; (g) the partitioned queue re-establishes heap order after every partition mutation; (h) redeploy builds a fresh timer store on the restored DKV.",
-		"order preservation when pushing into a partially loaded cache (a runtime invariant between cache and DKV contents); negative timestamps; the exact multiset of firings over histories.")
+		"(a) a due timer is deleted from the store before it is handed to the caller, and the firing loop stops exactly when the earliest timer is later than the composite watermark; (b) SetTimer stores a timer iff the watermark is strictly before it; (c) every cache mutation of a key-group queue is paired with the DKV mutation and every accessor loads from the DKV first; (d) a partial load (cache filled up) is not recorded as 'all data in cache'; (e) the sorted cache's size accounting uses the element replaced by a re-registration; (f) timer keys are laid out [2 key group BE][0x01][8 unix-nano BE][subject] consistently in encoder, decoder, comparator and scan prefix; (g) the partitioned queue re-establishes heap order after every partition mutation; (h) redeploy builds a fresh timer store on the restored DKV; (j) while timers exist only in the DKV an element enters the cache only if it does not sort after the last cached element (the cache stays a prefix of the key group's timers), and Push never raises allDataInCache.",
+		"negative timestamps; the exact multiset of firings over histories.")
 
 	register(&Obligation{ID: "C10.a", Props: []string{"C10", "C11"}, Template: "must-precede+order-domain",
 		Desc: "TimerRegistry.AdvanceWatermark: the loop stops iff the earliest timer's timestamp is after the composite watermark; the timer is deleted from the store before it is yielded, and it is the earliest timer that is deleted and yielded",
@@ -295,7 +295,15 @@ func init() {
 			type pair struct{ fn, cacheM, dbM string }
 			for _, p := range []pair{{"Push", "Push", "Put"}, {"Delete", "Delete", "Delete"}} {
 				f := r.P.Func("workers/operator", "(*KeyGroupPriorityQueue)."+p.fn)
-				spec := &pathsim.Spec{Step: func(c *pathsim.Ctx, s pathsim.State, ev *pathsim.Event) []pathsim.State {
+				spec := &pathsim.Spec{}
+				if p.fn == "Push" {
+					spec.Atom = r.pushAtoms(f)
+					spec.AtomDeps = map[int][]types.Object{0: {r.P.Field("workers/operator", "KeyGroupPriorityQueue", "allDataInCache")}}
+				}
+				spec.Step = func(c *pathsim.Ctx, s pathsim.State, ev *pathsim.Event) []pathsim.State {
+					if p.fn == "Push" {
+						s = r.pushInvalidate(c, s, ev)
+					}
 					if methodCallOn(cache, p.cacheM)(c, ev) {
 						if len(ev.Call.Args) < 1 || !r.isParam(f, ev.Call.Args[0], 0) {
 							c.Violate(ev.Pos, "[cache-arg] the cache is not updated with the element passed to %s", p.fn)
@@ -311,10 +319,14 @@ func init() {
 						return []pathsim.State{s}
 					}
 					if (ev.Kind == pathsim.EvReturn || ev.Kind == pathsim.EvExit) && s.A != 3 {
-						c.Violate(ev.Pos, "[unpaired] %s returns having updated only %s: the cache and the DKV diverge (a timer is lost on reload, or fires again after restore)", p.fn, [...]string{"nothing", "the cache", "the DKV"}[s.A])
+						// Push may leave an element in the DKV only while the cache is known to be partial
+						// (it is loaded from there once the cache has drained, C10.d)
+						if !(p.fn == "Push" && s.A == 2 && s.V[0] == pathsim.False) {
+							c.Violate(ev.Pos, "[unpaired] %s returns having updated only %s: the cache and the DKV diverge (a timer is lost on reload, or fires again after restore)", p.fn, [...]string{"nothing", "the cache", "the DKV"}[s.A])
+						}
 					}
-					return nil
-				}}
+					return []pathsim.State{s}
+				}
 				r.Sim(f.Decl, f.Name(), spec)
 				r.Site(f.Decl.Pos(), f.Name()+": cache and DKV updated together")
 			}
@@ -376,6 +388,8 @@ func init() {
 					s.B = 0
 					if tv, ok := c.Info.Types[ev.Rhs[0]]; ok && tv.Value != nil && tv.Value.String() == "false" {
 						s.B = 1
+					} else {
+						c.Violate(ev.Pos, "[flag-raised] Push assigns allDataInCache something other than false: only a scan that ran to its end (loadFromDB) knows that every timer of the key group is cached; raising the flag here hides the timers that exist only in the DKV")
 					}
 					return []pathsim.State{s}
 				}
